@@ -26,7 +26,6 @@ def regenerate():
 def _torch():
     import torch
     torch.set_num_threads(1)
-    torch.set_default_dtype(torch.float64)
     return torch
 
 
